@@ -190,7 +190,12 @@ def shrink(c):
 
 MANIFEST = {
     "text": "Theorems (Coq, no axioms) about an executable Gallina model of rlib_gcd over unbounded Z with truncating division: "
-            "gcd = Z.gcd for all operands (any sign); further statements listed in evidence. The model is tied to the code on "
+            "gcd = Z.gcd for all operands (any sign); lcm = Z.lcm unless both operands are zero (then it panics); egcd is sound "
+            "(a*x + b*y = c for whatever it returns, no bound), never panics unless a = b = 0 and answers None exactly when "
+            "gcd(a,b) does not divide c; crt on positive moduli and reduced residues returns the unique representative in "
+            "[0, lcm) of a compatible system and None for an incompatible one; model_check implies spec_check on in-scope cases; "
+            "instrumented variants (same results, proved) show every intermediate value is bounded by M*M (+M for crt) for "
+            "operands up to M, hence below 2^62 for operands up to 2^20. The model is tied to the code on "
             "every run: the executor runs gcd/lcm/egcd/crt from /repo on an exhaustive small cube plus boundary-biased samples "
             "(7 integer types) and Coq proves model = implementation and implementation |= spec on every case.",
     "level_note": "Trusted: Coq kernel + vm_compute; the Rust executor and the Python case printer; integers are unbounded Z "
